@@ -422,6 +422,9 @@ class HttpParser:
 
         body_part, rest = rest[:size], rest[size:]
         if len(rest) < 2:
+            # the CRLF after the chunk data has not arrived yet
+            return None
+        if rest[:2] != b'\r\n':
             self.errno = INVALID_CHUNK
             self.errstr = 'chunk missing terminator [%s]' % data
             return -1
@@ -447,7 +450,13 @@ class HttpParser:
         except ValueError:
             raise InvalidChunkSize(chunk_size)
 
+        if chunk_size < 0:
+            raise InvalidChunkSize(chunk_size)
+
         if chunk_size == 0:
+            if rest_chunk[:2] != b'\r\n' and rest_chunk.find(b'\r\n\r\n') < 0:
+                # the end of the (possibly empty) trailer has not arrived yet
+                return None, None
             self._parse_trailers(rest_chunk)
             return 0, None
         return chunk_size, rest_chunk
